@@ -425,6 +425,11 @@ CLAIMED["C03"]["text"] += (
     " Round 5: alac_decode_in_bounds (lean/SfProps/C03Alac.lean) proves that every store of the ALAC decoder into the sample buffer is in range for EVERY packet, stale buffer content, kuki configuration and frame count up to 4096; "
     "dyn_decomp / unpc_block sizes and the termination bound of the element loop are proved; hostile packets run under ASan against the Lean decoder (vlib/alaccore.py). Not proved: a bound on how far the bit reader runs past "
     "the packet end (the C code checks `cur < end` only between elements; observed safe, the slack behind the 1 MiB byte buffer is what makes it so).")
+CLAIMED["C04"]["text"] += (" Round 6: SD2's resource fork is modelled byte for byte (lean/SfModel/Sd2.lean: writer in closed form, parser as a program of byte reads) and tied by vlib/sd2.py (fork bytes of library-written files for every sample size x "
+                            "channels x rates incl. 2^31-1, re-open, >3000 damaged forks incl. the SFE_SD2_* code); proved: value texts parse back (sd2_rate_text_roundtrip, sd2_decimal_roundtrip), frames from the data file length, short data files reach the fork "
+                            "(sd2_short_data_reopens; old rule refuted), fork independent of heap history (sd2_rsrc_deterministic); the composition parse (rsrc c) = c is proved for instances by kernel evaluation only (sd2_reopen_info_instances).")
+CLAIMED["C03"]["text"] += (" Round 6: sd2_parse_in_bounds -- for ARBITRARY fork bytes every read of sd2_parse_rsrc_fork / parse_str_rsrc lies inside the fork, the 32-byte string buffers keep their NUL, the loops end within len / 12 + 1 iterations "
+                            "(sd2_parse_never_fuel); NIST files shorter than the header are refused whatever they contain (nist_parse_short_file); new monitored class: truncated files of every container under valgrind memcheck on a plain build (vlib/vgcheck.py).")
 
 
 def main():
